@@ -345,7 +345,9 @@ fn scan_tree(root: &str, secrets: &[String], hits: &mut Vec<(String, String)>, s
             }
         } else if md.is_file() {
             let name = p.file_name().unwrap().to_string_lossy().to_string();
-            if skip_key_files && p.parent().map(|d| d == std::path::Path::new(KEYS_DIR)).unwrap_or(false) && (name.ends_with(".key") || name.ends_with(".tmp")) {
+            // (the key store is the directory the configured folder resolves to)
+            let in_key_store = p.parent().map(|d| d == std::path::Path::new(KEYS_DIR) || (std::fs::canonicalize(d).ok().is_some() && std::fs::canonicalize(d).ok() == std::fs::canonicalize(KEYS_DIR).ok())).unwrap_or(false);
+            if skip_key_files && in_key_store && (name.ends_with(".key") || name.ends_with(".tmp")) {
                 continue;
             }
             if let Ok(data) = std::fs::read(&p) {
@@ -400,7 +402,10 @@ fn key_dir_check(res: &mut EngineResult, case: &Value, when: &str) {
 }
 
 fn clean_state() {
-    for d in [KEYS_DIR, LOG_DIR] {
+    if std::fs::symlink_metadata(KEYS_DIR).map(|m| m.file_type().is_symlink()).unwrap_or(false) {
+        let _ = std::fs::remove_file(KEYS_DIR);
+    }
+    for d in [KEYS_DIR, LOG_DIR, "/var/lib/azure-proxy-agent/keys-real"] {
         let _ = std::fs::remove_dir_all(d);
     }
     for d in ["/tmp", "/var/tmp", "/dev/shm"] {
@@ -436,13 +441,15 @@ fn main() {
         vec![Ev::Disable, Ev::Enable, Ev::Restart],
     ];
     let faults = [Ev::AcquireMissingField, Ev::AcquireTrailingGarbage, Ev::AcquireNonHexKey, Ev::AcquireShortHexKey, Ev::AcquireLongHexKey, Ev::Acquire500WithKeyInBody, Ev::StatusMalformed, Ev::Attest500];
-    let mut histories: Vec<(Vec<Ev>, u32)> = Vec::new(); // (events, key dir pre-state: bit 0 = left-over 0755 dir (else absent), bit 1 = chown/chmod on the key directory answer 0.7 s late, bit 2 = the directory belongs to another user and chown on it fails with EPERM)
+    let mut histories: Vec<(Vec<Ev>, u32)> = Vec::new(); // (events, key dir pre-state: bit 0 = left-over 0755 dir (else absent), bit 1 = chown/chmod on the key directory answer 0.7 s late, bit 2 = the directory belongs to another user and chown on it fails with EPERM, bit 3 = the configured folder is a symbolic link to a 0755 directory)
     for b in &base {
         histories.push((b.clone(), 0));
     }
     histories.push((vec![Ev::Enable, Ev::Noop], 1));
     histories.push((vec![Ev::Enable, Ev::Noop], 2));
     histories.push((vec![Ev::Enable, Ev::Restart, Ev::Rotate], 3));
+    histories.push((vec![Ev::Enable, Ev::Noop], 8));
+    histories.push((vec![Ev::Enable, Ev::Restart, Ev::Rotate], 8));
     histories.push((vec![Ev::Enable, Ev::Noop], 5));
     histories.push((vec![Ev::Enable, Ev::Restart, Ev::Rotate], 5));
     histories.push((vec![Ev::Enable, Ev::KeyDirRemoved, Ev::Rotate, Ev::Noop], 0));
@@ -478,6 +485,13 @@ fn main() {
     for (hi, (hist, pre)) in histories.iter().enumerate() {
         clean_state();
         let slow_acl = *pre & 2 != 0;
+        if *pre & 8 != 0 {
+            // the configured key folder is a symbolic link to a directory on another volume (relocated), mode 0755
+            let real = "/var/lib/azure-proxy-agent/keys-real";
+            std::fs::create_dir_all(real).unwrap();
+            std::fs::set_permissions(real, std::fs::Permissions::from_mode(0o755)).unwrap();
+            std::os::unix::fs::symlink(real, KEYS_DIR).unwrap();
+        }
         if *pre & 4 != 0 {
             std::fs::create_dir_all(KEYS_DIR).unwrap();
             std::os::unix::fs::chown(KEYS_DIR, Some(12345), Some(12345)).unwrap();
@@ -648,7 +662,7 @@ fn main() {
     res.cov("histories", histories.len() as u64);
     res.cov("keys_issued", keys_issued_total);
     res.cov("exhaustive", true);
-    res.cov("rule", "histories of host events over {enable, disable, rotate, no-op poll, agent restart} and one-shot faults that carry key material (acquire answered with the key but a missing field / trailing garbage / a non-hex key / a well-formed hex key of 128 or 512 bits, 500 with the key in the body, a status document that fails validation, attest 500), with the key directory absent or left over with mode 0755, with chown/chmod on the key directory answering 0.7 s late (strace delay injection), or with the directory owned by another user and chown refused with EPERM, or removed by the environment while the agent runs (before the first latch / before a rotation), or with the stored key files damaged but still containing the key (bytes appended / closing brace lost) before a restart; the whole agent (real start_service, loggers at Trace, production paths) runs as a child process in lock-step with the mock host; after every poll six client requests (allowed IMDS, WireServer, denied, direct, /provision, /provision with notify); afterwards every file under the log/event/status/key directories (key files excepted) and under /tmp, /var/tmp, /dev/shm, /run, stdout/stderr, /dev/console and all client responses are searched for every secret issued (hex any case, raw bytes); non-trivial = history in which a key was issued".to_string());
+    res.cov("rule", "histories of host events over {enable, disable, rotate, no-op poll, agent restart} and one-shot faults that carry key material (acquire answered with the key but a missing field / trailing garbage / a non-hex key / a well-formed hex key of 128 or 512 bits, 500 with the key in the body, a status document that fails validation, attest 500), with the key directory absent or left over with mode 0755, with chown/chmod on the key directory answering 0.7 s late (strace delay injection), or with the directory owned by another user and chown refused with EPERM, or with the configured folder being a symbolic link to a 0755 directory, or removed by the environment while the agent runs (before the first latch / before a rotation), or with the stored key files damaged but still containing the key (bytes appended / closing brace lost) before a restart; the whole agent (real start_service, loggers at Trace, production paths) runs as a child process in lock-step with the mock host; after every poll six client requests (allowed IMDS, WireServer, denied, direct, /provision, /provision with notify); afterwards every file under the log/event/status/key directories (key files excepted) and under /tmp, /var/tmp, /dev/shm, /run, stdout/stderr, /dev/console and all client responses are searched for every secret issued (hex any case, raw bytes); non-trivial = history in which a key was issued".to_string());
     res.assume("the kernel program is not attached (no kprobes here); the child installs real kernel maps for attribution like the E2 world");
     std::process::exit(res.finish());
 }
